@@ -88,7 +88,7 @@ theorem C09_nil_in_nil_out (inp : Input) (N : List String) (r : Recv) :
 theorem C09_skip_iff (rs ws : SideSem) (N : List String) (w : WSt) (c : Claim) (rl wl : Leaf)
     (hr : resolveField rs.tree c.rd = some rl) (hw : resolveField ws.tree c.wr = some wl) :
     ((hops rs.ptrs rl.path).all (nonNil N) = false → idealStmt rs ws N w c = w) ∧
-    ((hops rs.ptrs rl.path).all (nonNil N) = true → ∀ v, idealValue c.strat (readLeaf N rl) = some v →
+    ((hops rs.ptrs rl.path).all (nonNil N) = true → ∀ v, idealValue c.strat (readVal N c rl) = some v →
       idealStmt rs ws N w c = { w with vals := w.vals ++ [(joinPath wl.path, v)] }) := by
   constructor
   · intro h; simp [idealStmt, hr, hw, h]
